@@ -7,6 +7,7 @@ godebug randseednop=0
 require (
 	github.com/AliyunContainerService/terway v0.0.0
 	github.com/aliyun/alibaba-cloud-sdk-go v1.63.88
+	github.com/boltdb/bolt v1.3.1
 	github.com/go-logr/logr v1.4.2
 	k8s.io/api v0.32.2
 	k8s.io/apimachinery v0.32.2
@@ -17,7 +18,6 @@ require (
 	github.com/AliyunContainerService/ack-ram-tool/pkg/credentials/provider v0.16.1 // indirect
 	github.com/alexflint/go-filemutex v1.2.0 // indirect
 	github.com/beorn7/perks v1.0.1 // indirect
-	github.com/boltdb/bolt v1.3.1 // indirect
 	github.com/cespare/xxhash/v2 v2.3.0 // indirect
 	github.com/containernetworking/cni v1.1.2 // indirect
 	github.com/containernetworking/plugins v1.3.0 // indirect
